@@ -231,7 +231,9 @@ fn arg(args: &[String], name: &str) -> Option<String> {
 }
 
 fn main() {
-    std::panic::set_hook(Box::new(|_| {}));
+    if std::env::var("VERIF_PANIC_MSG").is_err() {
+        std::panic::set_hook(Box::new(|_| {}));
+    }
     let args: Vec<String> = std::env::args().collect();
     let cmd = args.get(1).map(|s| s.as_str()).unwrap_or("");
     match cmd {
@@ -275,7 +277,7 @@ fn main() {
                 }
             }
             let n = arg(&args, "--vars").and_then(|v| v.parse().ok()).unwrap_or(maxv);
-            ex.tt = if n <= 6 { Some(tt::TT { n }) } else { None };
+            ex.tt = if n <= 6 { Some(tt::TT::ident(n)) } else { None };
             for l in &lines {
                 ex.step(l);
             }
